@@ -5,6 +5,7 @@ from .common import Laws, run_subprocess, main_entry
 from .. import inputs
 
 SPEC = dict(
+    aux_translators=['__alias__'],
     lean_modules=['SmVerif.Props.C17'],
     groups=[],
     partial=['the static part (AliasIR regenerated from the Python AST, checker proved sound in Lean) covers writes through local names; '
